@@ -91,7 +91,13 @@ def new_base():
 
 
 def drop_base(base):
-    shutil.rmtree(base, ignore_errors=True)
+    try:
+        shutil.rmtree(base, ignore_errors=True)
+    except RecursionError:
+        pass
+    if os.path.exists(base):
+        import subprocess
+        subprocess.run(["rm", "-rf", base], check=False)
 
 
 def cleanup_all():
@@ -103,6 +109,23 @@ def cleanup_all():
                 shutil.rmtree(os.path.join(root, n), ignore_errors=True)
     except OSError:
         pass
+
+
+def purge_stale():
+    """Remove sandboxes left behind by processes that no longer exist."""
+    root = sandbox_root()
+    try:
+        names = os.listdir(root)
+    except OSError:
+        return
+    for n in names:
+        if n.startswith("ZQV") and "_" in n:
+            try:
+                pid = int(n[3:].split("_")[0])
+            except ValueError:
+                continue
+            if pid != os.getpid() and not os.path.exists(f"/proc/{pid}"):
+                drop_base(os.path.join(root, n))
 
 
 def materialise(base, files):
